@@ -62,7 +62,7 @@ func (store *Store) UpdateAccountsMetadata(ctx context.Context, m map[string]met
 				Set("metadata = accounts.metadata || excluded.metadata").
 				Set("updated_at = excluded.updated_at").
 				Set("first_usage = case when excluded.first_usage < accounts.first_usage then excluded.first_usage else accounts.first_usage end").
-				Where("not accounts.metadata @> excluded.metadata").
+				Where("not accounts.metadata @> excluded.metadata or excluded.first_usage < accounts.first_usage").
 				Exec(ctx)
 			if err != nil {
 				return postgres.ResolveError(err)
